@@ -264,7 +264,13 @@ func (r *Decoder) parseRoot() error {
 
 				switch objectMembers.Type.Content {
 				case "literal":
-					if objectMembers.Datatype != nil {
+					if objectMembers.Lang != nil && len(objectMembers.Lang.Content) == 0 {
+						return fmt.Errorf("invalid lang: empty")
+					} else if objectMembers.Datatype != nil && len(objectMembers.Datatype.Content) == 0 {
+						return fmt.Errorf("invalid datatype: empty")
+					}
+
+					if objectMembers.Datatype != nil && rdf.IRI(objectMembers.Datatype.Content) != rdfiri.LangString_Datatype {
 						r.statements = append(r.statements, statement{
 							triple: rdf.Triple{
 								Subject:   subjectValue,
@@ -299,6 +305,8 @@ func (r *Decoder) parseRoot() error {
 								encoding.ObjectStatementOffsets, objectOffsetRange,
 							),
 						})
+					} else if objectMembers.Datatype != nil {
+						return fmt.Errorf("missing key: lang")
 					} else {
 						r.statements = append(r.statements, statement{
 							triple: rdf.Triple{
